@@ -43,6 +43,10 @@ func waitTurn(i int) {
 
 type raceG struct {
 	id      int
+	ids     []int32 // first pass only: the statement id of every point reached, in order
+	stepOf  []int32 // first pass only: the step each of those points belongs to
+	record  bool
+	yieldTo []int // per yield: run the owner of that step ahead up to and including it (0 = just the next foreign step)
 	pointN  int
 	yields  []int // ordinals (n-th point reached by this goroutine) at which to yield, ascending
 	yi      int
@@ -81,8 +85,16 @@ func racePointHook(id int) {
 	}
 	n := g.pointN
 	g.pointN++
+	if g.record {
+		g.ids = append(g.ids, int32(id))
+		g.stepOf = append(g.stepOf, int32(g.curStep))
+	}
 	if g.yi >= len(g.yields) || g.yields[g.yi] != n {
 		return
+	}
+	to := 0
+	if g.yi < len(g.yieldTo) {
+		to = g.yieldTo[g.yi]
 	}
 	for g.yi < len(g.yields) && g.yields[g.yi] <= n {
 		g.yi++
@@ -91,6 +103,23 @@ func racePointHook(id int) {
 		return // already inside an interrupting step: no nesting
 	}
 	i := g.curStep
+	if to > i && to < len(raceOwnerOf) && int(raceOwnerOf[to]) != g.id {
+		// targeted: let the owner of step `to` run ahead through that step, so that
+		// it executes the same statement this goroutine is suspended at
+		h := raceOwnerOf[to]
+		for k := i + 1; k <= to; k++ {
+			if raceOwnerOf[k] == h && load32(&raceDone[k]) == 0 {
+				g.fired++
+				store32(&raceIntRet, int32(i+1))
+				store32(&batonTurn, int32(k))
+				for load32(&batonTurn) != -int32(i+1) {
+					runtime.Gosched()
+				}
+			}
+		}
+		raceCurG = g
+		return
+	}
 	j := -1
 	for k := i + 1; k < len(raceOwnerOf); k++ {
 		if int(raceOwnerOf[k]) != g.id && load32(&raceDone[k]) == 0 {
@@ -162,7 +191,11 @@ func (e *Exec) runRace() *Violation {
 	logStart := raceLogSize()
 	gs := max(1, e.tr.Gs)
 	steps := e.tr.Steps
-	// build phase
+	// build phase: mutations only. No query touches a shared tree before the
+	// readers start, so that state a query fills in lazily is first filled by them.
+	savedOr := e.or
+	e.or = 0
+	defer func() { e.or = savedOr }()
 	first := 0
 	for first < len(steps) && steps[first].G == 0 && steps[first].T >= 0 {
 		s := &steps[first]
@@ -174,6 +207,7 @@ func (e *Exec) runRace() *Violation {
 		}
 		first++
 	}
+	e.or = savedOr
 	for _, ts := range e.trees {
 		if ts.cfg.Shared {
 			ts.api.Freeze()
@@ -201,13 +235,23 @@ func (e *Exec) runRace() *Violation {
 	store32(&raceIntRet, 0)
 	gstate := make([]*raceG, gs+1)
 	for g := 1; g <= gs; g++ {
-		gstate[g] = &raceG{id: g}
+		gstate[g] = &raceG{id: g, record: e.recordPoints}
+		type yt struct{ nth, to int }
+		var ys []yt
 		for _, p := range e.tr.Points {
 			if p.G == g && p.Act == "yield" {
-				gstate[g].yields = append(gstate[g].yields, p.Nth)
+				ys = append(ys, yt{p.Nth, p.To})
 			}
 		}
-		sortInts(gstate[g].yields)
+		for a := 1; a < len(ys); a++ {
+			for b := a; b > 0 && ys[b-1].nth > ys[b].nth; b-- {
+				ys[b-1], ys[b] = ys[b], ys[b-1]
+			}
+		}
+		for _, y := range ys {
+			gstate[g].yields = append(gstate[g].yields, y.nth)
+			gstate[g].yieldTo = append(gstate[g].yieldTo, y.to)
+		}
 	}
 	if pointsAvailable {
 		raceSetCur(nil)
@@ -271,6 +315,8 @@ func (e *Exec) runRace() *Violation {
 	wg.Wait()
 	for g := 1; g <= gs; g++ {
 		e.racePoints = append(e.racePoints, gstate[g].pointN)
+		e.racePointIDs = append(e.racePointIDs, gstate[g].ids)
+		e.racePointSteps = append(e.racePointSteps, gstate[g].stepOf)
 		if gstate[g].fired > 0 {
 			e.st.Events["point_yield"] += gstate[g].fired
 		}
@@ -370,7 +416,7 @@ func genRaceTrace(seed uint64, run int, o genOpts) *Trace {
 	if o.tier == "thorough" && r.Chance(1, 4) {
 		budget = r.Range(400, 2000)
 	}
-	if !shared && run%4 == 2 && nPriv > 0 {
+	if !shared && (run%4 == 2 || (o.churnBias && run%2 == 0)) && nPriv > 0 {
 		// pool churn: every private tree drives one node up and down across the
 		// size-class boundaries, in bursts, so a node released by one goroutine's
 		// tree is the next one another goroutine's tree acquires
